@@ -51,6 +51,9 @@ pub const KINDS: &[&str] = &[
     "cw_coset",        // 44 (errors on complete cosets of a multiplicative subgroup: binomial / sparse locators)
     "history",         // 45 (separator between consecutive calls of a history)
     "cw_impostor",     // 46 (received data codewords replaced by those ANOTHER valid message would have put there)
+    "cw_toward",       // 47 (a subset of the difference to a neighbouring codeword: between two codewords)
+    "cw_twin",         // 48 (identical damage - same degrees, same values - in several blocks: identical syndromes)
+    "snd_foreign_ec",  // 49 (EC part as a plausible non-conforming encoder writes it: valid RS words in the wrong places)
 ];
 
 pub fn kind_id(name: &str) -> u8 {
@@ -81,6 +84,8 @@ pub enum Op {
     GeoColDrop { c: u32 },
     GeoColDup { c: u32 },
     GeoWidth { w: u32 },
+    /// widths that do not fit 32 bits (see `huge_width`)
+    GeoWidthHuge { code: u32 },
     GeoEmpty,
     GeoRot { q: u8 },
     GeoMirror,
@@ -90,6 +95,39 @@ pub enum Op {
     /// producer output (a history: call, call, ..., call); the faults after the last separator are the call
     /// whose outcome is checked. Exercises state that a decoder might carry from one call to the next.
     NextCall,
+}
+
+/// Extreme widths: the ends of the usize range, the 2^31 / 2^32 / 2^63 boundaries, and catalogue widths plus 2^32
+/// (aliases of a valid width when a width is truncated to 32 bits).
+pub const N_HUGE_WIDTHS: u32 = 24;
+pub fn huge_width(code: u32) -> usize {
+    let m = usize::MAX;
+    match code {
+        0 => m,
+        1 => m - 1,
+        2 => m / 2,
+        3 => m / 2 + 1,
+        4 => m / 2 + 2,
+        5 => (1usize << 32) - 1,
+        6 => 1usize << 32,
+        7 => (1usize << 32) + 1,
+        8 => (1usize << 31) - 1,
+        9 => 1usize << 31,
+        10 => (1usize << 31) + 1,
+        11 => m - 9,
+        12 => m - 143,
+        13 => (1usize << 32) + 10,
+        14 => (1usize << 32) + 18,
+        15 => (1usize << 32) + 32,
+        16 => (1usize << 32) + 144,
+        17 => (1usize << 48) + 12,
+        18 => (1usize << 63) + 10,
+        19 => (1usize << 63) + 144,
+        20 => m / 3,
+        21 => m / 10,
+        22 => m / 144,
+        _ => 1usize << 62,
+    }
 }
 
 #[derive(Clone, Copy, Debug, PartialEq, Eq)]
@@ -312,6 +350,13 @@ pub fn apply_s4(faults: &[Fault], px: &mut Vec<bool>, width: &mut usize, fired: 
                     fired[fi] = true;
                 }
             }
+            Op::GeoWidthHuge { code } => {
+                let nw = huge_width(*code);
+                if nw != w {
+                    *width = nw;
+                    fired[fi] = true;
+                }
+            }
             Op::GeoEmpty => {
                 if n > 0 {
                     px.clear();
@@ -390,6 +435,7 @@ fn op_to_json(op: &Op) -> J {
         Op::GeoColDrop { c } => a("geo_col_drop", vec![J::i(*c as usize)]),
         Op::GeoColDup { c } => a("geo_col_dup", vec![J::i(*c as usize)]),
         Op::GeoWidth { w } => a("geo_width", vec![J::i(*w as usize)]),
+        Op::GeoWidthHuge { code } => a("geo_width_huge", vec![J::i(*code as usize)]),
         Op::GeoEmpty => a("geo_empty", vec![]),
         Op::GeoRot { q } => a("geo_rot", vec![J::i(*q as usize)]),
         Op::GeoMirror => a("geo_mirror", vec![]),
@@ -435,6 +481,7 @@ fn op_from_json(j: &J) -> Result<Op, String> {
         "geo_col_drop" => Op::GeoColDrop { c: n(1)? },
         "geo_col_dup" => Op::GeoColDup { c: n(1)? },
         "geo_width" => Op::GeoWidth { w: n(1)? },
+        "geo_width_huge" => Op::GeoWidthHuge { code: n(1)? },
         "geo_empty" => Op::GeoEmpty,
         "geo_rot" => Op::GeoRot { q: n(1)? as u8 },
         "geo_mirror" => Op::GeoMirror,
@@ -613,6 +660,7 @@ impl Trace {
                 Op::GeoColDrop { c } => h.u32s(&[13, *c]),
                 Op::GeoColDup { c } => h.u32s(&[14, *c]),
                 Op::GeoWidth { w } => h.u32s(&[15, *w]),
+                Op::GeoWidthHuge { code } => h.u32s(&[115, *code]),
                 Op::GeoEmpty => h.u32(16),
                 Op::GeoRot { q } => h.u32s(&[17, *q as u32]),
                 Op::GeoMirror => h.u32(18),
